@@ -5,6 +5,7 @@ package blockservice
 
 import (
 	"context"
+	"fmt"
 	"io"
 	"sync"
 
@@ -273,6 +274,9 @@ func getBlock(ctx context.Context, c cid.Cid, bs BlockService, fetchFactory func
 	if err != nil {
 		return nil, err
 	}
+	if !blk.Cid().Equals(c) {
+		return nil, fmt.Errorf("exchange returned block %s instead of %s", blk.Cid(), c)
+	}
 	// also write in the blockstore for caching, inform the exchange that the block is available
 	err = blockstore.Put(ctx, blk)
 	if err != nil {
@@ -360,6 +364,11 @@ func getBlocks(ctx context.Context, ks []cid.Cid, blockservice BlockService, fet
 			return
 		}
 
+		wanted := cid.NewSet()
+		for _, c := range misses {
+			wanted.Add(c)
+		}
+
 		ex := blockservice.Exchange()
 		var cache [1]blocks.Block // preallocate once for all iterations
 		for {
@@ -372,6 +381,11 @@ func getBlocks(ctx context.Context, ks []cid.Cid, blockservice BlockService, fet
 				b = v
 			case <-ctx.Done():
 				return
+			}
+
+			if !wanted.Has(b.Cid()) {
+				logger.Errorf("exchange delivered unrequested block %s, dropped", b.Cid())
+				continue
 			}
 
 			// write in the blockstore for caching
